@@ -279,6 +279,12 @@ def replay(ctx, data):
     ctx.build_go()
     if 'op' in data:
         print(ctx.run_go('compare', [data['op']])[0])
+    elif isinstance(data.get('a'), str) and isinstance(data.get('b'), str):
+        print('compare(a,b) =', ctx.run_go('cmpstr', ['%s\t%s' % (esc(data['a']), esc(data['b']))])[0],
+              ' compare(b,a) =', ctx.run_go('cmpstr', ['%s\t%s' % (esc(data['b']), esc(data['a']))])[0])
+    elif isinstance(data.get('a'), dict) and isinstance(data.get('b'), dict):
+        print('compare(a,b) =', ctx.run_go('compare', ['%s\t%s' % (R.enc(data['a']), R.enc(data['b']))])[0],
+              ' compare(b,a) =', ctx.run_go('compare', ['%s\t%s' % (R.enc(data['b']), R.enc(data['a']))])[0])
     else:
         print(data)
     return 0
